@@ -331,12 +331,59 @@ def search_ids():
     yield n, None, None
 
 
+def search_add():
+    """add_scu / add_scp: the classes put into the proposal are the classes registered with the service"""
+    n = 0
+    own_lists = [[], SOPS[:1], SOPS[:2]]
+    overrides = [None, [], SOPS[:1], SOPS[1:3], SOPS[:3], ['9.9.9']]
+    for which in ('add_scu', 'add_scp'):
+        for own in own_lists:
+            for given in (overrides if which == 'add_scu' else [None]):
+                for earlier in ([], ['7.7.7'], SOPS[2:3]):
+                    n += 1
+                    ae = object.__new__(applicationentity.AEBase)
+                    applicationentity.AEBase.__init__(ae, None, 16384)
+                    ae.supported_scp = {}
+                    old = types.SimpleNamespace(sop_classes=list(earlier))
+                    reg = ae.supported_scu if which == 'add_scu' else ae.supported_scp
+                    reg.update({u: old for u in earlier})
+                    before = dict(reg)
+                    proposed_before = [c.sop_class for c in ae.context_def_list.values()]
+                    svc = types.SimpleNamespace(sop_classes=list(own))
+                    fails = []
+                    try:
+                        if which == 'add_scu':
+                            r = ae.add_scu(svc) if given is None else ae.add_scu(svc, given)
+                        else:
+                            r = applicationentity.AE.add_scp(ae, svc)
+                    except Exception as e:   # noqa
+                        yield n, {'call': which, 'service_classes': own, 'override': given}, ['noexc: %r' % (e,)]
+                        continue
+                    eff = given if given else own
+                    if r is not ae:
+                        fails.append('chainable')
+                    proposed = [c.sop_class for c in ae.context_def_list.values()]
+                    if proposed != proposed_before + list(eff):
+                        fails.append('proposal-extended-by-the-effective-list')
+                    if any(reg.get(u) is not svc for u in eff):
+                        fails.append('every-proposed-class-is-registered-with-the-service')
+                    if any((u in reg) != (u in before) or (u in before and reg[u] is not before[u])
+                           for u in set(reg) | set(before) if u not in eff):
+                        fails.append('rest-of-the-registry-unchanged')
+                    if fails:
+                        yield n, {'call': which, 'service_classes': own, 'override': given, 'registered_earlier': earlier}, fails
+    yield n, None, None
+
+
 def main():
     req = json.loads(sys.stdin.read() or '{}')
     name = req.get('obligation', '')
     clause = name.split('#')[-1].split('@')[0]
     clause = clause.split(':')[-1] if clause.startswith(('inv:', 'frame:')) else clause
-    if 'update_context_def_list' in name or '_build_context_def_list' in name or 'ids' in req.get('what', ''):
+    if '.add_scu' in name or '.add_scp' in name:
+        gen, bound = search_add(), ('add_scu / add_scp x 3 service class lists x 6 overrides (none, empty, subset, '
+                                    'overlapping, superset, disjoint) x 3 earlier registrations')
+    elif 'update_context_def_list' in name or '_build_context_def_list' in name or 'ids' in req.get('what', ''):
         gen, bound = search_ids(), 'sequences of add calls with 0..128 classes, and 129/139/200 classes in one call'
     elif '_loop' in name:
         gen, bound = search_loop(), 'context in table x class served'
